@@ -98,6 +98,8 @@ struct vthr {
 	int			wake_eintr;
 	pthread_t		pth;
 	_Atomic int		tid;
+	_Atomic uint32_t	prio;		/* priority mode: this thread's priority in the current case */
+	_Atomic uint64_t	prio_case;
 	pthread_mutex_t *_Atomic	wait_m;		/* mutex this thread is blocked on (contended lock), or NULL */
 	void			*wait_ra;	/* ... and the caller of that pthread_mutex_lock() */
 	uint64_t		dl_sig;
@@ -117,7 +119,7 @@ static _Atomic int ext_pending;
 static _Atomic int64_t V = 1000 * VT_NS;	/* virtual CLOCK_MONOTONIC */
 static pthread_mutex_t Q = PTHREAD_MUTEX_INITIALIZER;	/* serialises quiescence deciders + stimuli list */
 static int single_mode;
-static int perturb_level;
+static int perturb_level, perturb_env;
 static int virtual_on = 1;
 static int in_child;
 static pthread_key_t exit_key;
@@ -189,13 +191,73 @@ int vt_self(void)
 int64_t vt_now(void) { return V; }
 void vt_burn(int64_t ns) { if (ns > 0) atomic_fetch_add(&V, ns); }
 void vt_set_single(int on) { single_mode = on; }
-void vt_set_perturb(int l) { perturb_level = l; }
+void vt_set_perturb(int l) { if (!perturb_env) perturb_level = l; }
 void vt_set_virtual(int on) { virtual_on = on; }
 void vt_ext_add(int n) { atomic_fetch_add(&epoch, 1); atomic_fetch_add(&ext_pending, n); atomic_fetch_add(&epoch, 1); }
 int  vt_ext_pending(void) { return ext_pending; }
 void vt_activity(void) { atomic_fetch_add(&epoch, 1); }
 
 /* ---- perturbation ------------------------------------------------------ */
+/*
+ * Priority mode (VT_PERTURB=2), after PCT (Burckhardt et al., ASPLOS 2010) but cooperative: every thread gets a random
+ * priority per case; at each perturbation point (wrapped lock, kick, wait, descriptor call) a thread that is outranked by
+ * another running thread steps aside for a few short sleeps, and at d = 3 randomly chosen global steps of the case the
+ * thread that reaches the step drops below everybody else.  Unlike the uniform mode this keeps one thread ahead of the
+ * others for long stretches and then reverses the order at a few points, which is what ordering bugs of small depth need.
+ * The sleeps are bounded, so nothing can dead-lock on the scheduler itself.
+ */
+static _Atomic uint64_t pct_steps;
+static uint64_t pct_change[3];
+static _Atomic uint32_t pct_low = 1000;
+
+static void pct_reset(uint64_t seed)
+{
+	uint64_t x = seed * 0xD1342543DE82EF95ULL + 12345;
+	int i;
+	pct_steps = 0;
+	pct_low = 1000;
+	for (i = 0; i < 3; i++) {
+		x ^= x << 13; x ^= x >> 7; x ^= x << 17;
+		pct_change[i] = 1 + (x >> 11) % (i == 0 ? 60 : i == 1 ? 400 : 3000);
+	}
+}
+
+static void pct_point(void)
+{
+	struct vthr *me;
+	uint64_t step;
+	int i, tries;
+
+	if (my_slot < 0)
+		return;		/* (a signal handler on a thread that has no slot yet) */
+	me = &thr[my_slot];
+	if (me->prio_case != case_seed) {
+		me->prio_case = case_seed;
+		me->prio = 2000 + (uint32_t)(((case_seed ^ ((uint64_t)(my_slot + 1) * 0x9E3779B97F4A7C15ULL)) >> 17) % 100000);
+	}
+	step = atomic_fetch_add(&pct_steps, 1) + 1;
+	for (i = 0; i < 3; i++)
+		if (step == pct_change[i]) {
+			me->prio = atomic_fetch_sub(&pct_low, 1);
+			vt_stats.pct_changes++;
+		}
+	for (tries = 0; tries < 4; tries++) {
+		int n = nslots, outranked = 0;
+		for (i = 0; i < n; i++)
+			if (i != my_slot && thr[i].state == T_RUNNING && thr[i].prio_case == case_seed && thr[i].prio > me->prio) {
+				outranked = 1;
+				break;
+			}
+		if (!outranked)
+			break;
+		{
+			struct timespec ts = { 0, 60000 };
+			nanosleep(&ts, NULL);
+		}
+		vt_stats.pct_deferrals++;
+	}
+}
+
 static void perturb(void)
 {
 	static __thread uint64_t tl_rng, tl_rng_case;
@@ -204,6 +266,10 @@ static void perturb(void)
 
 	if (!perturb_level || in_child || vt_no_perturb)
 		return;
+	if (perturb_level == 2) {
+		pct_point();
+		return;
+	}
 	if (tl_rng_case != case_seed || !tl_rng) {
 		/* thread-local generator, re-seeded per case; never allocates a thread slot (may run in a signal handler on a thread that has none yet) */
 		tl_rng_case = case_seed;
@@ -384,6 +450,7 @@ void vt_reset_case(uint64_t seed)
 	nstim = 0;
 	V = 1000 * VT_NS;	/* every case starts at the same virtual instant (and virtual time cannot creep towards overflow over a long run) */
 	case_seed = seed ? seed : 1;
+	pct_reset(case_seed);
 	for (i = 0; i < nslots; i++)
 		if (thr[i].state != T_FREE)
 			thr[i].rng = (case_seed * 0x9E3779B97F4A7C15ULL) ^ ((uint64_t)(i + 1) << 32) ^ 0x5DEECE66DULL;
@@ -1425,6 +1492,8 @@ void vt_init(void)
 		stale_errno = 1;
 	if (getenv("VT_DEBUG"))
 		atexit(dbg_dump);
-	if ((s = getenv("VT_PERTURB")) != NULL)
+	if ((s = getenv("VT_PERTURB")) != NULL) {
 		perturb_level = atoi(s);
+		perturb_env = 1;	/* the environment overrides what the harness asks for */
+	}
 }
